@@ -477,6 +477,22 @@ theorem formatBin_length (i n : Nat) (hn : 1 ≤ n) (hi : i < 2 ^ n) : (formatBi
   simp only [formatBin, List.length_append, List.length_replicate]
   omega
 
+theorem formatBin_length_ge (i n : Nat) : n ≤ (formatBin i n).length := by
+  simp only [formatBin, List.length_append, List.length_replicate]
+  omega
+
+/-- a sampled tuple is exactly as long as the register – for every width, zero included -/
+theorem outcomeTuple_length (i n : Nat) : (outcomeTuple i n).length = n := by
+  have := formatBin_length_ge i n
+  simp only [outcomeTuple, List.length_reverse, List.length_take]
+  omega
+
+/-- for a register of at least one qubit and an index in range the slice changes nothing -/
+theorem outcomeTuple_eq_formatBin (i n : Nat) (hn : 1 ≤ n) (hi : i < 2 ^ n) : outcomeTuple i n = formatBin i n := by
+  have := formatBin_length i n hn hi
+  simp only [outcomeTuple]
+  rw [List.take_of_length_le (by simp [this]), List.reverse_reverse]
+
 /-! ## shape of results -/
 
 /-- at least `n` shots, each as long as the register of `c` -/
@@ -494,34 +510,25 @@ def DrawLaw (ext : Ext) : Prop :=
   ∀ k c n, 0 < n → ((ext.draw k c n).length : Int) = n ∧ ∀ i ∈ ext.draw k c n, i < 2 ^ c.width
 
 theorem Produced.shape {ext : Ext} {kind : Kind} {k : Nat} {c : Circ} {n : Int} {m : List Shot}
-    (h : Produced ext kind k c n m) (hn : 0 < n) (he : ExecLaw ext) (hd : DrawLaw ext)
-    (hw : kind = .base ∨ 1 ≤ c.width) : ShotsOK c n m := by
+    (h : Produced ext kind k c n m) (hn : 0 < n) (he : ExecLaw ext) (hd : DrawLaw ext) :
+    ShotsOK c n m := by
   cases kind with
   | base => exact he k c n m hn h
   | sim a =>
-    have hw : 1 ≤ c.width := by rcases hw with h | h; exact absurd h (by simp); exact h
     obtain ⟨_, rfl⟩ := h
-    obtain ⟨h1, h2⟩ := hd k c n hn
+    obtain ⟨h1, _⟩ := hd k c n hn
     refine ⟨by simp [sampleShots, h1], ?_⟩
     intro s hs
     simp only [sampleShots, List.mem_map] at hs
-    obtain ⟨i, hi, rfl⟩ := hs
-    exact formatBin_length i c.width hw (h2 i hi)
+    obtain ⟨i, _, rfl⟩ := hs
+    exact outcomeTuple_length i c.width
 
 theorem InOrder.shape {ext : Ext} {kind : Kind} {k : Nat} {ps : List (Circ × Int)} {ms : List (List Shot)}
-    (h : InOrder ext kind k ps ms) (he : ExecLaw ext) (hd : DrawLaw ext)
-    (hw : kind = .base ∨ ∀ p ∈ ps, 1 ≤ p.1.width) :
+    (h : InOrder ext kind k ps ms) (he : ExecLaw ext) (hd : DrawLaw ext) :
     List.Forall₂ (fun p m => ShotsOK p.1 p.2 m) ps ms := by
   induction h with
   | nil k => exact List.Forall₂.nil
-  | cons hn hp _ ih =>
-    refine List.Forall₂.cons (hp.shape hn he hd ?_) (ih ?_)
-    · rcases hw with h | h
-      · exact Or.inl h
-      · exact Or.inr (h _ List.mem_cons_self)
-    · rcases hw with h | h
-      · exact Or.inl h
-      · exact Or.inr (fun p hp => h p (by simp [hp]))
+  | cons hn hp _ ih => exact List.Forall₂.cons (hp.shape hn he hd) ih
 
 /-! ## every runner answers what the base-class runner at the bottom of the chain answers -/
 
